@@ -380,8 +380,9 @@ def build_api(spec):
 
     adv = SBV2xAdvancedParams(dek=spec["dek"], mac=spec["mac"], nonce=spec["nonce"],
                               timestamp=datetime.fromtimestamp(spec["timestamp"]), padding=spec["padding"])
-    sections = [BootSectionV2(s["uid"], *[build_cmd(c) for c in s["commands"]], hmac_count=s["hmac_count"], zero_filling=s["zero"])
-                for s in spec["sections"]]
+    built = [[build_cmd(c) for c in s["commands"]] for s in spec["sections"]]
+    sections = [BootSectionV2(s["uid"], *cmds, hmac_count=s["hmac_count"], zero_filling=s["zero"])
+                for s, cmds in zip(spec["sections"], built)]
     common = {"product_version": spec["product_version"], "component_version": spec["component_version"],
               "build_number": spec["build_number"], "advanced_params": adv}
     if spec["ver"] == "2.1":
@@ -397,6 +398,22 @@ def build_api(spec):
         # the same image object asked again: export may not consume or advance anything (keys, nonce, section state);
         # it is the second file that is judged
         spec["first_export_len"] = len(data)
+        edit = spec.get("edit_between_exports")
+        if edit == "load-data":
+            # an exported object is edited and exported again: a load gets other bytes of the same length
+            loads = [(c, o) for s, cmds in zip(spec["sections"], built) for c, o in zip(s["commands"], cmds) if c["k"] == "load" and c["data"]]
+            if loads:
+                c, o = loads[spec["edit_pick"] % len(loads)]
+                new = bytes(b ^ 0xA5 for b in c["data"])
+                o.data = new
+                c["data"] = new
+                spec["first_export_len"] = None  # (the length stays the same; nothing to compare it with is needed)
+                spec["first_export_len"] = len(data)
+        elif edit == "sha-flag" and spec["ver"] == "2.1":
+            # ... or the SHA-256 flag of the live header is switched: the layout follows the flags the file carries
+            img.header.flags ^= 0x8000
+            spec["flags"] ^= 0x8000
+            spec["first_export_len"] = None
         data = img.export(padding=spec["padding"])
     return data
 
@@ -981,13 +998,18 @@ def run_case(case, ctx):  # noqa: C901
     if kind == "api":
         spec = gen_spec(rng, case["ver"], case["k"])
         spec["export_twice"] = case["k"] % 3 == 2
+        if spec["export_twice"]:
+            spec["edit_between_exports"] = core.pick(rng, [None, "load-data", "sha-flag"])
+            spec["edit_pick"] = rng.randrange(1 << 16)
         data = export_or_report(ctx, spec, lambda: build_api(spec), "api")
         if data is None:
             ctx.ok(["api", case["ver"], "not built"], nontrivial=False)
             return
         if spec["export_twice"]:
             ctx.count("second_exports_judged")
-            if spec.get("first_export_len") != len(data):
+            if spec.get("edit_between_exports"):
+                ctx.count("edited_between_exports")
+            if spec.get("first_export_len") is not None and spec.get("first_export_len") != len(data):
                 ctx.violation("sb2-second-export-of-the-same-object-has-another-length",
                               {"ver": spec["ver"], "first": spec.get("first_export_len"), "second": len(data)})
         run_file(ctx, spec, data, "api")
